@@ -23,7 +23,7 @@ from . import c04
 from .. import ent_check as EF
 
 PID = "C03"
-SK = [("table", 1), ("table", 2), ("table", 3), ("seq", 1), ("seq", 2), ("alter", 1), ("alter", 2), ("view", 1), ("view", 2), ("unsup", 1), ("unsup", 2),
+SK = [("table", 1), ("table", 2), ("table", 3), ("seq", 1), ("seq", 2), ("alter", 1), ("alter", 2), ("view", 1), ("view", 2), ("ext", 1), ("unsup", 1), ("unsup", 2),
       ("unsup", 3), ("insert", 1), ("insert", 2), ("grant", 1), ("go", 1), ("set", 1), ("drop", 1)]
 
 
@@ -141,7 +141,7 @@ def run(tier, seed):
     thorough = tier == "thorough"
     cov = {"model_checked": [], "generation": []}
     states = trans = 0
-    cfgs = [("<=3 statements of 18 shapes", F.consts(SK, MaxStmts=3))]
+    cfgs = [("<=3 statements of 19 shapes", F.consts(SK, MaxStmts=3))]
     if thorough:
         cfgs.append(("<=4 statements of 10 shapes", F.consts([s for s in SK if s[1] == 1 or s[0] in ("table", "insert")], MaxStmts=4)))
     for what, cs in cfgs:
